@@ -203,6 +203,24 @@ class Part:
         self.opened.append(d)
         return d
 
+    def path(self):
+        """What katdal.open takes for this part: the HDF5 file, or (v4) an RDB file of the telstate, written on first
+        use two levels below the directory of the npy chunk store (where katdal looks for it)."""
+        if self.fmt != 'v4':
+            return self.fn
+        if getattr(self, '_rdb', None) is None:
+            from katsdptelstate.rdb_writer import RDBWriter
+            x = self.x
+            for k, v in (('capture_block_id', x.cbid), ('stream_name', x.stream)):
+                if k not in x.telstate:
+                    x.telstate[k] = v
+            d = os.path.join(x.tmp, x.cbid)
+            os.makedirs(d, exist_ok=True)
+            self._rdb = os.path.join(d, '%s_%s.rdb' % (x.cbid, x.stream))
+            with RDBWriter(self._rdb) as w:
+                w.save(x.telstate)
+        return self._rdb
+
     def close(self):
         for d in self.opened:
             f = getattr(d, 'file', None)
@@ -214,15 +232,17 @@ class Part:
         self.opened = []
 
 
-def open_concat(parts, order, via_open):
-    """The concatenation of freshly opened parts given in input order `order` (indices into parts)."""
+def open_concat(parts, order, via_open, ref_ant=''):
+    """The concatenation of freshly opened parts given in input order `order` (indices into parts): through
+    katdal.open([file, ...]) (v4 parts: their telstate written as an RDB file next to the npy chunk store) when
+    via_open, all parts take the same keywords and no sensor was assigned directly; else from data set objects."""
     from katdal.concatdata import ConcatenatedDataSet
-    if via_open and all(p.fmt != 'v4' for p in parts) and not any(p.spec.get('arrs') for p in parts) \
-            and len({repr(p.open_kwargs) for p in parts}) == 1:
-        c = katdal.open([parts[i].fn for i in order], **parts[0].open_kwargs)
+    if via_open and not any(p.spec.get('arrs') for p in parts) and len({repr(p.open_kwargs) for p in parts}) == 1:
+        files = [parts[i].path() for i in order]
+        c = katdal.open(files, ref_ant, **parts[0].open_kwargs)
         for d in c.datasets:
             for p in parts:
-                if p.fn and os.path.basename(p.fn).split('.')[0] in d.name:
+                if os.path.basename(p.path()).split('.')[0] in d.name:
                     p.opened.append(d)
         return c, 'katdal.open'
     return ConcatenatedDataSet([parts[i].fresh() for i in order]), 'ConcatenatedDataSet'
